@@ -428,6 +428,73 @@ fn c02_commit_again_after_failure(dir: PathBuf) -> ScenFut<'static> {
     })
 }
 
+/// A commit that has passed the shutdown check runs on while close() flushes and closes the
+/// commit log.
+fn c02_commit_overlapping_close(dir: PathBuf) -> ScenFut<'static> {
+    Box::pin(async move {
+        let res = std::thread::spawn(move || -> Result<(), String> {
+            let rt = tokio::runtime::Builder::new_multi_thread().worker_threads(4).enable_all().build().map_err(|e| e.to_string())?;
+            rt.block_on(async move {
+                let cfg = Cfg { flush_on_close: true, ..base_cfg() };
+                let t = std::sync::Arc::new(cfg.open(&dir).map_err(|e| e.to_string())?);
+                put(&t, &[(b"base", b"0")]).await?;
+                let ctl = crate::e3::ctl();
+                ctl.reset();
+                let g_commit = ctl.arm_gate("commit.before_lock");
+                let g_close = ctl.arm_gate("close.after_flush");
+                let tc = t.clone();
+                let h = tokio::runtime::Handle::current();
+                let committer = std::thread::spawn(move || h.block_on(async move { put(&tc, &[(b"late", b"acknowledged-during-close")]).await }));
+                if !g_commit.wait_parked(5000) {
+                    g_commit.release();
+                    g_close.release();
+                    let _ = committer.join();
+                    ctl.reset();
+                    return Err("harness: the commit did not reach commit.before_lock".into());
+                }
+                let tcl = t.clone();
+                let h2 = tokio::runtime::Handle::current();
+                let closer = std::thread::spawn(move || h2.block_on(async move { tcl.close().await.map_err(|e| e.to_string()) }));
+                // close() either waits for the commit under way, or goes ahead and parks after its flush
+                let close_parked = g_close.wait_parked(1500);
+                g_commit.release();
+                let rc = committer.join().map_err(|_| "committer panicked".to_string())?;
+                g_close.release();
+                let rclose = closer.join().map_err(|_| "closer panicked".to_string())?;
+                ctl.reset();
+                // the process dies right after close() has returned: what is on disk now
+                let img = dir.with_extension("img");
+                let _ = std::fs::remove_dir_all(&img);
+                crate::props::c12::copy_dir(&dir, &img).map_err(|e| format!("harness: copy: {e}"))?;
+                let _ = std::fs::remove_file(img.join("LOCK"));
+                drop(t);
+                let t2 = cfg.open(&img).map_err(|e| format!("open of the directory as it was when close() returned: {e}"))?;
+                let late = get1(&t2, b"late")?;
+                let base = get1(&t2, b"base")?;
+                close(t2).await;
+                let _ = std::fs::remove_dir_all(&img);
+                if std::env::var_os("VERIF_DEBUG_SCEN").is_some() {
+                    eprintln!("DEBUG close_parked={close_parked} rc={rc:?} rclose={rclose:?} late={:?}", late.as_ref().map(|v| v.len()));
+                }
+                if base.is_none() {
+                    return Err("the commit made before close() is missing after the reopen".into());
+                }
+                if rc.is_ok() && late.is_none() {
+                    return Err(format!(
+                        "a commit that had passed the shutdown check was under way when close() was called; close() {} and returned {:?}; the commit returned Ok - in the directory as it was when close() returned (process death right then) its write is gone (its commit-log segment had been released by the shutdown flush before the record was appended, and was removed)",
+                        if close_parked { "flushed the memtables without waiting for it" } else { "ran" },
+                        rclose
+                    ));
+                }
+                Ok(())
+            })
+        })
+        .join()
+        .map_err(|_| "scenario thread panicked".to_string())?;
+        res
+    })
+}
+
 fn c02_commit_after_wal_repair(dir: PathBuf) -> ScenFut<'static> {
     Box::pin(async move {
         commit_after_damage(
@@ -3036,6 +3103,12 @@ pub fn all() -> Vec<Scenario> {
             property: "C07",
             title: "versioned store (both back-ends): each of four sessions flushes 300 new versions, then close and reopen",
             run: c07_version_index_grows_across_reopens,
+        },
+        Scenario {
+            id: "C02-commit-overlapping-close",
+            property: "C02",
+            title: "a commit past the shutdown check runs on while close() flushes and closes the commit log",
+            run: c02_commit_overlapping_close,
         },
         Scenario {
             id: "C16-filter-block-unchecked",
